@@ -107,6 +107,9 @@ func detProgram(r *Rng) detProg {
 			"{{ -1 + 2 }}{{ -2.5 * 2 }}{% for i in lst %}{{ -3 + n }}{% endfor %}",
 			"<{{ rec.Name }}|{{ rec.Email }}|{{ rec.ID }}|{{ rec.Label }}|{{ rec.PLabel }}|{{ rec.Extra }}>",
 			"{{ lst|slice:\"1:\" }}|{{ s|slice:\":2\" }}|{{ lst|slice:\"-2:\" }}|{{ z_ints|slice:\"1:\" }}|{{ s|truncatechars:3 }}|{{ lst|join:s }}|{{ s|center:9 }}|{{ lst|first }}{{ lst|last }}",
+			"{% macro fm(a) %}{% firstof nothing \"<li&t>\" %}{{ a }}{{ \"<l>\" }}{% cycle \"<c>\" \"&\" %}{% filter cut:\"~\" %}{{ \"<f>\" }}{% endfilter %}{% endmacro %}{% if flag %}{% autoescape off %}{{ fm(s) }}{% endautoescape %}{{ fm(s) }}{% else %}{{ fm(s) }}{% autoescape off %}{{ fm(s) }}{% endautoescape %}{% endif %}",
+			"{% for v in z_ints %}{{ \"ab\"|center:v }}|{{ \"abcdef\"|slice:s }}|{{ 10|add:n }}|{{ \"\"|default:s }}|{{ 5|add:v }};{% endfor %}{{ \"x\"|ljust:n }}|{{ \"lit\"|add:s }}|{{ 3|add:d }}",
+			"{% widthratio n 3 100 as wr %}{{ wr|add:1 }}|{{ wr + 1 }}|{% if wr == 100 %}full{% endif %}{% with a=s %}{% ssi \"/ssipart.tpl\" parsed %}{% endwith %}[{{ a }}]{% autoescape off %}{% set inauto = s %}{% endautoescape %}[{{ inauto }}]",
 			"{{ n * 2 }}|{{ d * 1.5 }}|{{ z_int * 2 }}|{{ z_int / 4 }}|{{ z_f64 * n }}|{% for x in z_ints %}{{ x * d }};{% endfor %}",
 		}
 		k := 1 + r.Intn(3)
